@@ -51,11 +51,7 @@ def errClass : Read.RErr → String
   | .extern _ => "extern"
   | .panic site => "PANIC " ++ site
 
-/-- `repl.multiLine` on the reader's error -/
-def multiLine : Read.RErr → Bool
-  | .eof c => c == ")" || c == "]" || c == "}" || c == "»"
-  | .rawEof => true
-  | _ => false
+def multiLine := Read.multiLine
 
 def renderRead (r : Except Read.RErr Val) : String :=
   match r with
@@ -218,14 +214,84 @@ def handle (line : String) : String :=
     | none => "bad-op"
   | _ => "bad-op"
 
-partial def loop (h : IO.FS.Stream) (out : IO.FS.Stream) : IO Unit := do
+/-! ### eval -/
+
+def evalFuel : Nat := 1000000
+
+def renderErr (st : State) (e : Err) : String :=
+  match e with
+  | .lisp p _ => "err lisp " ++ Proto.render (fun id => st.atoms[id]?) p
+  | .plain _ => "err plain"
+
+def parseScript (s : String) : Option (List Cmd) :=
+  if s == "-" then none else
+  some (s.toList.map fun c => if c == 'x' then Cmd.next else if c == 'i' then Cmd.stepIn else if c == 'o' then Cmd.stepOut else Cmd.noop)
+
+def joinSemi (l : List String) : String := " ; ".intercalate l
+
+def renderNats (l : List Nat) : String := "[" ++ " ".intercalate (l.map toString) ++ "]"
+
+def runEval (base : State) (payload : String) : String :=
+  match payload.splitOn " | " with
+  | [flags, prog] =>
+    match Proto.parseLine prog with
+    | none => "bad-op"
+    | some ast =>
+      let fs := flags.splitOn " "
+      let get (p : String) : String := ((fs.find? (·.startsWith p)).map (fun f => (f.drop p.length).toString)).getD "-"
+      let cancelAt := (get "c=").toNat?
+      let script := parseScript (get "s=")
+      let names := if get "n=" == "-" then [] else (get "n=").splitOn ","
+      let st0 : State := { base with cancelAt := cancelAt, ticks := 0, trace := [], marks := [],
+                                      stepper := script.map fun sc => { script := sc } }
+      let (r, st) := eval evalFuel st0 0 ast 1
+      let deref := fun id => st.atoms[id]?
+      let res := match r with
+        | .ok v => "ok " ++ Proto.render deref v
+        | .err e => renderErr st e
+        | .oof => "OOF"
+      let defs := names.map fun n => match st.get 0 n with
+        | some v => n ++ "=" ++ Proto.render deref v
+        | none => n ++ "=?"
+      let out := s!"{res} trace=[{joinSemi (st.trace.reverse.map (Proto.render deref))}] marks={renderNats st.marks.reverse} ticks={st.ticks} defs=[{joinSemi defs}]"
+      match st.stepper with
+      | some sp => out ++ s!" calls=[{joinSemi (sp.calls.reverse.map (Proto.render deref))}]"
+      | none => out
+  | _ => "bad-op"
+
+def loadLib (st : State) (prog : String) : Except String State :=
+  match Proto.parseLine prog with
+  | none => .error "library AST does not parse"
+  | some ast =>
+    match eval evalFuel st 0 ast 1 with
+    | (.ok _, st') => .ok st'
+    | (.err e, st') => .error ("library does not evaluate: " ++ renderErr st' e)
+    | (.oof, _) => .error "library: out of fuel"
+
+def runInit (payload : String) : State × String :=
+  let libs := payload.splitOn " | "
+  let rec go (st : State) : List String → State × String
+    | [] => (st, "-")
+    | l :: r => match loadLib st l with
+      | .ok st' => go st' r
+      | .error m => (st, "init-failed: " ++ m)
+  go initState libs
+
+def handleS (base : State) (line : String) : State × String :=
+  match line.splitOn "\t" with
+  | ["init", payload] => runInit payload
+  | ["eval", payload] => (base, runEval base payload)
+  | _ => (base, handle line)
+
+partial def loop (h : IO.FS.Stream) (out : IO.FS.Stream) (base : State) : IO Unit := do
   let line ← h.getLine
   if line.isEmpty then return ()
   let l := if line.endsWith "\n" then (line.dropEnd 1).toString else line
-  out.putStrLn (handle l)
-  loop h out
+  let (base', ans) := handleS base l
+  out.putStrLn ans
+  loop h out base'
 
 def main : IO Unit := do
   let out ← IO.getStdout
-  loop (← IO.getStdin) out
+  loop (← IO.getStdin) out initState
   out.flush
